@@ -81,7 +81,7 @@ def corr_patterns(ctx):
     n_base = 6 if ctx.quick else 20
     k = 5 if ctx.quick else 10
     specs = base_specs(ctx, n_base)
-    conn, heat, red, meta = [], [], [], []
+    conn, heat, red, meta, meta_red = [], [], [], [], []
     for sp in specs:
         net = gen.build(sp)
         flags = choose_flags(rng, net, k)
@@ -108,8 +108,10 @@ def corr_patterns(ctx):
             if obs is not None:
                 heat.append(cc.heat_case(net))
                 red.append(cc.red_case(net, "hydraulics"))
+                meta_red.append((sp, flags, bits))
                 if "node_active_heat_transfer" in net["_lookups"]:
                     red.append(cc.red_case(net, "heat_transfer"))
+                    meta_red.append((sp, flags, bits))
         cc.apply_flags(net, flags, base_bits)
         # the path without connectivity check
         txt, info, obs = cc.conn_case(net, check=False)
@@ -124,10 +126,10 @@ def corr_patterns(ctx):
               "(hydraulic=False)", None, 150)
     run_cases(ctx, "red_case", "red_case_ok", red, "C04.Model.reduce_ft / reduce_index_lookups / reduce_from_to == "
               "reduce_pit, reduce_lookups, copy_lookups (active from/to, ELEMENT_IDX, index_active, from_to_active)",
-              None, 60)
+              meta_red, 60, classify=mon.classify_red_mismatch)
 
 
-def run_cases(ctx, typ, okfn, body, name, meta, size):
+def run_cases(ctx, typ, okfn, body, name, meta, size, classify=None):
     """evaluate the chunks with a few coqc processes in parallel"""
     from concurrent.futures import ThreadPoolExecutor
     n_tot = n_mis = 0
@@ -148,15 +150,12 @@ def run_cases(ctx, typ, okfn, body, name, meta, size):
         if m:
             if meta:
                 sp, flags, bits = meta[s + first]
-                found = mon.classify_conn_mismatch(ctx, sp, flags, bits)
+                found = (classify or mon.classify_conn_mismatch)(ctx, sp, flags, bits)
                 if not found:
                     ctx.broken("correspondence", name, "model and implementation differ on flags %r bits %r of net %s, "
-                               "but the implementation's masks agree with the property-level reachability oracle"
+                               "but the implementation agrees with the property-level oracle"
                                % (flags, bits, json.dumps(sp)[:500]))
             else:
-                found = False
-                for sp, flags, bits in (ctx.extra.get("_meta_all") or [])[:0]:
-                    pass
                 ctx.broken("correspondence", name, "case %d of chunk starting at %d differs" % (first, s))
     ctx.corr(name, n_tot, n_mis)
 
